@@ -499,7 +499,7 @@ func parseArray(elm atype, s string) atype {
 		if s[i] == '[' {
 			break
 		}
-		num += string(s[i])
+		num = string(s[i]) + num
 	}
 	if len(num) == 0 {
 		return array(parseArray(elm, s[:len(s)-2]))
